@@ -420,10 +420,29 @@ class Sim:
             self.ctx.hit("fault.rejected_constructor")
             return
         if bad is not None:
-            raise Violation("constructor_accepted_invalid",
-                            f"Vector with {bad} was accepted: names={a_names} "
-                            f"defaults={a_def} mins={a_min} maxs={a_max} {kw}",
-                            "new")
+            # the statement does not say such a construction must be refused;
+            # if it is accepted the result must still satisfy the invariants
+            # (it does not join the pool: no model describes it)
+            self.ctx.hit("probe.questionable_constructor_accepted")
+            try:
+                vals = [float(x) for x in v.values]
+                lo = [float(x) for x in v.mins]
+                hi = [float(x) for x in v.maxs]
+            except Exception as e:
+                raise Violation("constructed_vector_unreadable",
+                                f"Vector with {bad}: {e!r}", "new")
+            for x, a, b in zip(vals, lo, hi):
+                if x != x:
+                    if not v.accept_nan:
+                        raise Violation("nan_stored", f"Vector with {bad} was "
+                                        f"accepted and holds NaN: {vals}",
+                                        "new")
+                elif x < a or x > b:
+                    raise Violation("value_out_of_bounds",
+                                    f"Vector with {bad} was accepted with "
+                                    f"values {vals} outside [{lo}, {hi}]",
+                                    "new")
+            return
         for a in args:
             if isinstance(a, (list, np.ndarray)):
                 self.caller_bufs.append(a)
